@@ -73,10 +73,10 @@ reg('C10', ['u_iter'],
     'set_offset/with_offset(o): o on a char boundary or beyond the input => cursor at min(o, len) on that boundary, offset field clamped, mode/scanner/line_offsets unchanged, nothing else of the old cursor survives (fm_inv re-established from the arguments only); advance_to(p) with p the end of a peeked match lands exactly on p, absolute (lemma_adv_target_boundary); next_match/peek_n contracts are functions of the abstract state only',
     [ITER, UTF8, WF])
 
-reg('C07', ['u_dfa', 'u_mode', 'u_iter', 'u_sub', 'u_mp', 'u_elim', 'u_glue'],
+reg('C07', ['u_dfa', 'u_mode', 'u_iter', 'u_sub', 'u_mp', 'u_elim', 'u_glue', 'u_mini'],
     'spans non-empty (l >= 1), start/end are byte offsets of char indices of the input (boff), start >= previous end (cursor monotone), Some(m) => cursor strictly advances, None => cursor at end and stays there (no_more); absence of panics while scanning = every index/unwrap/overflow/slice-boundary obligation of the functions under contract. '
-    'Build side (partial): every index / unwrap / expect / panic! / overflow obligation and the termination of the build functions under contract (closure layer, multi-pattern union, epsilon-elimination worklists, lookahead glue: units U-sub, U-mp, U-elim, U-glue) is discharged for automata that fit the 32-bit state ids: the four panic!("State .. not found") / "NFA for target state not found" sites and `.expect("NFA not found")` are unreachable, the worklists terminate',
-    [WF, CLS, ITER, UTF8, 'build side NOT decided for: Minimizer (index-heavy, C03 not applicable), regex-syntax parser, ScannerImpl::try_from / CompiledScannerMode (establishing wf of the scanner from the compiled automata), Nfa::try_from_ast is covered by C02/C15 (unit U-nfa: overflow obligations under th_fits); size preconditions th_fits / mp_fits (automata within 32-bit state ids) are assumed, beyond them ids wrap (C17)'])
+    'Build side (partial): every index / unwrap / expect / panic! / overflow obligation and the termination of the build functions under contract (closure layer, multi-pattern union, epsilon-elimination worklists, minimizer, lookahead glue: units U-sub, U-mp, U-elim, U-mini, U-glue) is discharged for automata that fit the 32-bit state ids: the four panic!("State .. not found") / "NFA for target state not found" sites and `.expect("NFA not found")` are unreachable, the worklists terminate; in the minimizer every unwrap (find_group, first(), position(), get_mut), every index and the panic! of renumber_states_in_transitions are unreachable and the refinement loop terminates',
+    [WF, CLS, ITER, UTF8, 'build side NOT decided for: regex-syntax parser, ScannerImpl::try_from / CompiledScannerMode (establishing wf of the scanner from the compiled automata), Nfa::try_from_ast is covered by C02/C15 (unit U-nfa: overflow obligations under th_fits); size preconditions th_fits / mp_fits (automata within 32-bit state ids) are assumed, beyond them ids wrap (C17)'])
 reg('C09', ['u_iter', 'u_api'],
     'position(o): line = 1 + number of line breaks before o and column = o - line start + 1 whenever all line starts up to o are recorded (complete_upto), or the permitted same-line alternative right after a line break; next_match/advance_to record every line start of the consumed region; set_offset recomputes last_char; merge keeps line_offsets sorted, duplicate free, true line starts',
     [ITER, UTF8, 'WithPositions::next itself (generic over the inner iterator) is not under contract; its two calls are position(m.start()) and position(m.end()) after next()'])
@@ -90,17 +90,18 @@ reg('C12', ['u_dfa', 'u_mode', 'u_iter', 'u_api'],
 reg('C17', ['u_min'],
     'every conversion between a group/state index and its id type in the minimizer is the identity for indices up to the width of StateID: find_group returns the index of the first group containing the state (not its value modulo the id width); one generated losslessness obligation per `as StateGroupIDBase` / `as StateIDBase` cast in minimizer.rs and compiled_dfa.rs',
     ['automata have at most u32::MAX states (width of StateID; not reachable in addressable memory)', 'derived Ord on StateID is the integer order (BTreeSet key model)',
-     'that the rest of the minimizer is correct for large automata is C03 (not decided)'],
+     'that the rest of the minimizer is correct is property C03 (unit U-mini)'],
     technique='Verus function contract on find_group + self-generated cast-losslessness obligations')
 
-reg('C03', ['u_mini'],
+reg('C03', ['u_mini', 'u_elim'],
     'every function of Minimizer (minimizer.rs, no function left as a stub) is under contract: calculate_initial_partition (non-accepting states in group 0, accepting states grouped by token type), '
     'build_transitions_to_partition_group / split_group / calculate_new_partition (pieces of a group have equal (class, target group) signatures; order kept; no growth means unchanged), '
     'the refinement loop of minimize (terminates at a stable partition), create_from_partition, add_representative_state, merge_transitions(_of_state), renumber_states_in_transitions, update_transitions '
     '(the result is the quotient automaton: state g has an edge (cc, h) exactly when a member of group g has an edge on cc into group h; end-state entries are those of the members; group 0 holds state 0). '
     'Minimizer::minimize ensures minimized(dfa, r) (r is the quotient by a stable, acceptance-homogeneous partition whose group 0 holds the start state) and r.states.len() <= dfa.states.len(); '
     'theorem_quotient_language / theorem_minimize_language (spec level, by induction over the word) conclude: for every class predicate, every string and every token type, r accepts exactly when dfa accepts, both from state 0.',
-    ['precondition of Minimizer::minimize: d_wf(dfa) only (>= 1 state, fewer than u32::MAX states, one end-state entry per state, targets are states); an accepting start state and an initial partition with an empty group of non-accepting states are covered',
+    ['call sites: impl From<Nfa> and impl From<MultiPatternNfa> for CompiledDfa (unit U-elim, the only callers) establish d_wf for the automaton they pass, for NFAs with fewer than u32::MAX states; every automaton that reaches the minimizer while a scanner is built comes from one of the two',
+     'precondition of Minimizer::minimize: d_wf(dfa) only (>= 1 state, fewer than u32::MAX states, one end-state entry per state, targets are states); an accepting start state and an initial partition with an empty group of non-accepting states are covered',
      'TRUSTED std contracts through external_body wrappers (rule U5): BTreeMap::into_values().collect(), Vec<BTreeSet>::ne / clone, Vec<StateID>::clone, BTreeMap<CharClassID, Vec<StateID>>::clone, BTreeMap::keys().cloned().collect()',
      'axioms: BTreeSet<StateID>/BTreeMap<StateID,_> iterate in ascending id order and BTreeSet::first is the least element (derived Ord of the id newtype), clone of StateData / (bool, TerminalID) / BTreeSet<StateID> is the identity on views (vec![e; n]), sort/dedup contracts (units/common/sort_specs.rs)',
      'rewrites E11/E13/E14/E15 (iterator adapters, entry API, values_mut as their std definitions) are equivalences by the std documentation, not proved',
@@ -129,22 +130,23 @@ reg('C15', ['u_ast'],
      'MultiPatternNfa::try_from_patterns / parse_regex_syntax (the path from a pattern string to try_from_ast) are not under contract'],
     technique='Verus function contract by structural recursion over the imported AST')
 
-reg('C02', ['u_nfa', 'u_sub', 'u_mp', 'u_elim', 'u_glue', 'u_lang'],
-    'the build pipeline up to the minimizer, as structural refinement of three specified constructions. (1) Thompson layer (U-nfa): every NFA combinator and Nfa::try_from_ast produce EXACTLY thompson(ast, registry) (state vector, epsilon and class edges, start/end, {m,n} expansion, leaves registered left to right). '
+reg('C02', ['u_nfa', 'u_sub', 'u_mp', 'u_elim', 'u_glue', 'u_lang', 'u_mini'],
+    'the build pipeline from the pattern text to the minimized automaton, as structural refinement of four specified constructions (Thompson, union, epsilon elimination, quotient). (1) Thompson layer (U-nfa): every NFA combinator and Nfa::try_from_ast produce EXACTLY thompson(ast, registry) (state vector, epsilon and class edges, start/end, {m,n} expansion, leaves registered left to right). '
     '(2) Union (U-mp): MultiPatternNfa::try_from_patterns yields mp_wf: pattern i is the Thompson automaton of its parsed text renumbered to its own id range [mp_off(i), mp_off(i+1)), ranges disjoint and ascending from 1, start transitions and token types in pattern order. '
     '(3) Closure layer (U-sub): Nfa::epsilon_closure returns exactly the reflexive-transitive epsilon closure (sorted, duplicate free), find_state/contains_state/find_nfa/is_accepting_state are the first-match lookups, get_match_transitions returns exactly the (class, target) pairs leaving the given states, for one Nfa and for the union (state 0 fans out to the pattern start states); every panic! in these functions is unreachable. '
     '(4) Epsilon elimination (U-elim): impl From<Nfa> and impl From<MultiPatternNfa> for CompiledDfa hand the minimizer EXACTLY the epsilon-elimination automaton: one state per distinct closure of the start state / of a transition target (injective numbering in discovery order, state 0 = closure of the start), S --cc--> closure(t) iff some member of S has the transition (cc, t), no duplicate edges, a state is accepting iff it can be entered and its closure holds an end state (so the start state alone never accepts: the empty string is not accepted), with the token type of the owning pattern; terminal_ids in pattern order; every closure a state can move to has its own state; the worklist terminates. '
-    '(5) Glue (U-glue): CompiledLookahead::try_from_lookahead returns the polarity of the lookahead and minimize(epsilon-elimination(Thompson(parse(lookahead text)))); CompiledDfa::try_from_patterns returns minimize(epsilon-elimination(union)) with, per token type, the compiled lookahead of the LAST pattern carrying one (HashMap::insert overwrites), built on the registry as left by the patterns before it; add_lookahead changes nothing but the lookahead map',
+    '(5) Minimizer (U-mini, property C03): every function of minimizer.rs under contract; Minimizer::minimize returns the quotient of its argument by a stable partition that never merges states of different token types, group 0 holding the start state; both From impls establish its precondition d_wf. (6) Glue (U-glue): CompiledLookahead::try_from_lookahead returns the polarity of the lookahead and minimize(epsilon-elimination(Thompson(parse(lookahead text)))); CompiledDfa::try_from_patterns returns minimize(epsilon-elimination(union)) with, per token type, the compiled lookahead of the LAST pattern carrying one (HashMap::insert overwrites), built on the registry as left by the patterns before it; add_lookahead changes nothing but the lookahead map',
     ['PROVED at spec level (theorem_elim_language, units/u_elim/elim_lang.rs, re-checked on every run): for every abstract epsilon-NFA g, every automaton d with elim_ok(g, d, reps), every class predicate and every non-empty word, d (read as find_from reads it: d_step/d_reach/d_acc) accepts exactly the token types g accepts (g_lands/g_acc: closures folded into reach); the empty word reaches only the start state, which is never accepting on its own account',
      'PROVED at spec level (theorem_thompson_language, unit U-lang, re-checked on every run): for every AST a (regex_syntax::ast::Ast), registry reg with th_fits, class predicate cls that agrees with the leaf meaning lf on (any extension of) the resulting registry, and lf compatible with the registry\'s ComparableAst equality: thompson(a, reg).0 accepts w (a run from start to end over epsilon and class edges, units/u_lang/lang_path.rs) iff re_lang(a, lf, w), where re_lang is the textbook meaning of the AST (Empty, leaves = one character, Concat, Alternation, ?, *, +, {c} = c copies, {c,} = c copies then any number, {l,m} = l copies then m-l optional copies, Group); every Thompson automaton is `nice` (well formed, end state without outgoing edges)',
      'PROVED at spec level (unit U-glue, glue_lang.rs, re-checked on every run): theorem_single_pattern_language: for the Nfa returned by try_from_ast for an AST and every elim_ok automaton d0 of it (= what From<Nfa> hands the minimizer; every lookahead automaton), every non-empty word w and token type tid: d_acc(d0, cls, w, tid) <==> re_lang(ast, lf, w) and tid is the pattern\'s token type. theorem_union_language: for the union m built by try_from_patterns (mp_built) and every elim_ok automaton d0 of it (= what From<MultiPatternNfa> hands the minimizer): d_acc(d0, cls, w, tid) <==> some pattern i of the mode has token type tid and re_lang(spec_parse(pattern i), lf, w). Proved through the bridge between runs of the Thompson view and the closure-folded runs of the graph view for renumbered NFAs (shifted_view, lemma_n_accepts) and lemma_mp_lands (landing in the union = landing in one pattern NFA)',
-     'NOT proved / outside: the meaning of leaves lf (class layer, C08) and its agreement with the registry-built class predicate (CharacterClassRegistry::create_match_char_class, not under contract) are hypotheses of the theorems (cls_ok, lf_respects); what regex-syntax\'s parser returns for a pattern text (spec_parse) is uninterpreted; the minimizer (spec_minimize) stands between d0 and the automaton the scanner runs',
-     'NOT under contract (bounded stand-in only, see coverage.bounded_stand_in): Minimizer (property C03: not applicable; Minimizer::minimize is the uninterpreted spec_minimize, so nothing is known about the minimized automaton beyond being a function of the verified one, not even that its lookahead map is empty), ScannerImpl::try_from / CompiledScannerMode::try_from_scanner_mode (modes -> compiled modes), CharacterClassRegistry::create_match_char_class',
+     'PROVED at spec level, END TO END THROUGH THE MINIMIZER (glue_lang.rs, re-checked on every run): theorem_single_pattern_minimized: for the automaton dm that From<Nfa> returns (min_of(d0, dm): contract of Minimizer::minimize, proved in U-mini) d_acc(dm, cls, w, tid) <==> re_lang(ast, lf, w) and tid is the pattern\'s token type; theorem_union_minimized: for the automaton d that CompiledDfa::try_from_patterns returns (states and end states of the minimized union, lookahead map filled in afterwards) d_acc(d, cls, w, tid) <==> some pattern of the mode with token type tid matches w; via theorem_minimize_language / theorem_quotient_language (units/u_mini/mini_spec.rs)',
+     'NOT proved / outside: the meaning of leaves lf (class layer, C08) and its agreement with the registry-built class predicate (CharacterClassRegistry::create_match_char_class, not under contract) are hypotheses of the theorems (cls_ok, lf_respects); what regex-syntax\'s parser returns for a pattern text (spec_parse) is uninterpreted',
+     'NOT under contract (bounded stand-in only, see coverage.bounded_stand_in): ScannerImpl::try_from / CompiledScannerMode::try_from_scanner_mode (modes -> compiled modes), CharacterClassRegistry::create_match_char_class, the regex-syntax parser',
      'TRUSTED std contracts given through wrappers (rule U5, the call is moved verbatim into an external_body function): BTreeSet::from_iter(Vec), btree_set::Iter::cloned, HashSet::into_iter, `map.iter().find(|(_, v)| **v == id).unwrap().0.clone()`; trusted contracts sort_unstable / sort_by_key / dedup (permutation, adjacent-duplicate removal), <[T]>::contains',
      'TRUSTED axioms: derived Ord of the id newtypes and of (CharClassID, StateID) is the integer / lexicographic order; BTreeSet<StateID> as a hash key has the equality of its element set; Clone of (bool, TerminalID) is the identity; FxBuildHasher builds valid hashers',
-     'TRUSTED CUTS: the Err arm of try_from_patterns (message rebuilt with the pattern index) is replaced by returning an opaque error (U4); the debug `patterns` text of the compiled automaton is opaque (U6); regex-syntax\'s parser is external (spec_parse uninterpreted); Minimizer::minimize is an uninterpreted function of its argument',
+     'TRUSTED CUTS: the Err arm of try_from_patterns (message rebuilt with the pattern index) is replaced by returning an opaque error (U4); the debug `patterns` text of the compiled automaton is opaque (U6); regex-syntax\'s parser is external (spec_parse uninterpreted)',
      'TRUSTED: CharacterClassRegistry::add_character_class returns the index of the first ComparableAst-equal entry or appends (position() with a string-comparing PartialEq); derived Clone/Default of Nfa, NfaState, Literal, Span, Ast, Pattern are field-wise',
-     'preconditions: automata fit the 32-bit state ids (th_fits / mp_fits); Nfa::get_match_transitions indexes the state vector by id, so it is only correct for unshifted automata (n_off == 0), which is how From<Nfa> uses it'],
-    level_text='proof that the code implements the three specified constructions exactly (Thompson, union, epsilon elimination) and chains them from the pattern text to the automaton handed to the minimizer, lookaheads included; the language theorems of the Thompson construction and of the epsilon elimination are proved at spec level; the minimizer and the mode/registry layer above are covered only by a bounded stand-in that is run on every check and labelled as such',
+     'preconditions: automata fit the 32-bit state ids and have fewer than u32::MAX states (th_fits / mp_fits / la_fit1 and mp_off(all) < u32::MAX: precondition d_wf of the minimizer); Nfa::get_match_transitions indexes the state vector by id, so it is only correct for unshifted automata (n_off == 0), which is how From<Nfa> uses it'],
+    level_text='proof that the code implements the four specified constructions exactly (Thompson, union, epsilon elimination, quotient by a stable partition) and chains them from the pattern text to the minimized automaton, lookaheads included; the language theorems of all four are proved at spec level and composed end to end; the parser, the class-predicate layer and the mode/registry layer above are covered only by a bounded stand-in that is run on every check and labelled as such',
     technique='Verus function contracts and loop invariants against spec-level constructions (structural refinement), one abstract epsilon-NFA instantiated for Nfa and MultiPatternNfa + bounded stand-in for the functions out of reach',
     standin_always=['stream', 'lookahead'])
